@@ -181,3 +181,18 @@ fn new_and_clear_are_empty() {
     kani::assume(i < 256);
     assert!(n.0[i] == 0);
 }
+
+// estimate_count never panics, whatever value (0..=255, all reachable through from_hex_string) a register holds: the
+// last register holds a symbolic value, the others are empty (so the running sum is concrete until the last iteration;
+// with the register at a symbolic index, or with 256 symbolic registers, CBMC did not finish in 20 minutes).  Complete
+// for these 256 states only.  What this guards: integer arithmetic on a register value inside the estimator (a shift by
+// the register, fixed in 17a5c7f) -- floating-point operations cannot panic.
+#[kani::proof]
+#[kani::unwind(258)]
+fn estimate_count_any_last_register_does_not_panic() {
+    let mut h = Hll8::new();
+    let r: u8 = kani::any();
+    h.0[255] = r;
+    let _ = h.estimate_count();
+    kani::cover!(r >= 64);
+}
